@@ -522,6 +522,8 @@ STYLES = [
     {"segs": [7, 7, 6, 0], "lazy_end": True, "exp_size": False},
 ]
 MUXES = [(0x2000, 0), (0x1018, 1), (0x0000, 0), (0xFFFF, 255), (0x6040, 0), (0x1A00, 8), (0x00FF, 128), (0xFF00, 1)]
+KEY_PAIRS = [((0x2100, 1), (0x4200, 0)), ((0x2000, 1), (0x2001, 0)), ((0x2000, 3), (0x2000, 4)), ((0x2003, 0), (0x2000, 3)),
+             ((0x1234, 5), (0x3412, 5)), ((0x2143, 0), (0x0021, 0x43)), ((0x1080, 2), (0x2100, 1)), ((0x6040, 0), (0x6040, 1))]
 ODTS = [None, None, 0x0F, 0x09, 0x0C, 0x05, 0x06, 0x07, 0x04, 0x10, 0x16, 0x15, 0x1B, 0x08, 0x11, 0x01, 0x0D, 0x40]
 
 
@@ -737,6 +739,19 @@ def gen_cases(rng, tier):
             else:
                 ts.append(T(dict(op="put", idx=m[0], sub=m[1], value=rdata(rng, rng.randrange(12)))))
         cases.append(one("seq", ts, store=store))
+    # ---- back to back on one client, addresses that collide under a careless key (index << 8 + sub, index + sub,
+    #      index | sub, index alone, index ^ sub, swapped bytes, 16-bit truncation), declared as numbers of different
+    #      sizes: whatever the client remembers from one transfer must not decide the truncation of the next
+    #      (added after seeded change C01-r6-2: a per-client cache of dictionary variables under such a key)
+    for a, b in KEY_PAIRS:
+        for ta, tb in ((0x05, 0x07), (0x07, 0x05), (0x06, None), (None, 0x06), (0x05, 0x09)):
+            for st in (STYLES[0], STYLES[1], STYLES[3]):
+                store = [[mux_key(*a), rdata(rng, 4)], [mux_key(*b), rdata(rng, rng.choice((4, 4, 6)))]]
+                ts = [T(ul_x(rng, "upload", a, ta), st), T(ul_x(rng, "upload", b, tb), st),
+                      T(ul_x(rng, "upload", a, ta), st), T(ul_x(rng, "upload", b, None), st)]
+                if rng.random() < 0.5:
+                    ts.reverse()
+                cases.append(one("seq_keys", ts, store=store))
     # ---- long payloads at framing boundaries (thorough): traces compared by length only
     if tier == "thorough":
         big = sorted({7 * k + d for k in (10, 100, 1000, 1428) for d in (-1, 0, 1)} | {127 * 7, 127 * 7 + 1, 9999, 10000})
